@@ -15,14 +15,31 @@ model is run under a random interleaving; in the thorough tier the harness is al
 Oracle (independent of the model): every call equals the reference of THAT CALL ALONE - argv =
 [expand(x, env at call time) for x in cmd + baked + extra], text/os.Stdout/status = what the child
 does with that argv routed as sh.Run / sh.Output route it under the environment of that call -
-and arrays and env map before == after."""
-import json, os, re
+and arrays and env map before == after.
+The COMMAND WORD is a history dimension: literal, $VAR for the directory / the program name / the whole
+path, or a bare name found through PATH; PATH, those variables and the programs themselves (removed,
+restored, chmod -x/+x: harness op "fs", which also bumps VERIF_FS_EPOCH in the environment) change
+between calls; the child prints its own location.  Which program a word names at a moment is the
+operating system's answer: the harness asks exec.LookPath right before every call and feeds the answers
+to the model (parameter functions of the environment at the call and the argv); the oracle uses its own
+lookup over its own record of the file-system operations."""
+import json, os, re, shutil
 from vlib import *
 
 VARS = ["V", "W", "X", "Y"]
 UNSET = "Z"                      # never set
 VALUES = ["one", "two", "", "a b", "$W", "x-y", "3", "${V}", "val"]
-CMDS = ["@CHILD@", "$CHILD", "${CHILD}", "$CHILDDIR/argvchild", "${CHILDDIR}/argvchild"]
+CMDS_ABS = ["@CHILD@", "$CHILD", "${CHILD}", "$CHILDDIR/argvchild", "${CHILDDIR}/argvchild"]
+# the command word as a history dimension: a directory, the program name or the whole path in a variable,
+# a bare name resolved through PATH.  @D1@/tool, @D2@/tool, @D2@/other are copies of the child; @D0@ is empty.
+CMDS = CMDS_ABS + ["$TOOLDIR/tool", "${TOOLDIR}/$TOOL", "$WHOLE", "tool", "$TOOL", "$TOOLDIR/tool", "tool", "$TOOL"]
+CMD_VARS = {"TOOLDIR": ["@D1@", "@D2@", "@D1@", "@D2@", "@D2@", "@D0@"],
+            "TOOL": ["tool", "tool", "tool", "other", "nosuch"],
+            "WHOLE": ["@D1@/tool", "@D2@/tool", "@D2@/other", "@D1@/tool", "@D0@/tool"],
+            "PATH": ["@D1@:@D2@", "@D2@:@D1@", "@D1@", "@D2@", "@D0@:@D2@", "@D1@:@D0@", "@D0@"]}
+CMDS_TOOL = ["$TOOLDIR/tool", "${TOOLDIR}/$TOOL", "$WHOLE", "tool", "tool", "$TOOL"]
+FS_EPOCH = "VERIF_FS_EPOCH"      # bumped by the harness with every file-system operation
+TOOLFILES = ["@D1@/tool", "@D2@/tool"]      # the programs that fs operations remove / restore / chmod
 WORDS = ["a", "-n", "x y", "", "lit", "b", "--flag=1", "$V", "${V}", "${V}x", "$V$W", "pre$V", "$V/$W", "$W", "$X",
          "${Y}", "$Z", "$V", "$W.txt", "k=$X"]
 FNS = ["Run", "RunV", "RunWith", "RunWithV", "Output", "OutputWith", "Exec"]
@@ -75,8 +92,11 @@ def gen_arrays(rng, scripts=False):
     return arrays
 
 
-def gen_env(rng):
+def gen_env(rng, cmdvars=True):
     env = {v: rng.choice(VALUES) for v in VARS if rng.random() < 0.75}
+    if cmdvars:
+        for k, vals in CMD_VARS.items():
+            env[k] = rng.choice(vals)
     if rng.random() < 0.4:
         env[VERBOSE] = rng.choice(VERBOSE_VALUES)          # mage -v
     return env
@@ -94,22 +114,70 @@ def gen_closures(rng, arrays):
     return cls
 
 
+def gen_cmd_history(rng):
+    """one closure whose command word depends on the environment (directory / name / whole path in a variable, or
+    a bare name found through PATH) is called again and again while that environment and the programs themselves
+    change; after each closure call the same command goes directly through sh.Output / sh.Run (the reference)"""
+    arrays = gen_arrays(rng, scripts=rng.random() < 0.3)
+    cmd = rng.choice(CMDS_TOOL)
+    kind = rng.choice(["run", "out", "out"])
+    baked = dict(NILS) if rng.random() < 0.3 else gen_slice(rng, arrays, want_spare=rng.random() < 0.5)
+    ops = [{"op": "mk", "kind": kind, "cmd": cmd, "baked": baked}]
+    fs = {f: {"present": True, "exec": True} for f in TOOLFILES}
+    relevant = {"$TOOLDIR/tool": ["TOOLDIR"], "${TOOLDIR}/$TOOL": ["TOOLDIR", "TOOL"], "$WHOLE": ["WHOLE"],
+                "tool": ["PATH"], "$TOOL": ["PATH", "PATH", "TOOL"]}[cmd]
+    for _ in range(rng.choice([2, 3, 3, 4, 5])):
+        extra = dict(NILS) if rng.random() < 0.4 else gen_slice(rng, arrays, nonempty=True)
+        ops.append({"op": "call", "c": 0, "extra": extra})
+        if rng.random() < 0.5:
+            ops.append({"op": "direct", "fn": "Output" if kind == "out" else "Run", "emap": None, "cmd": cmd,
+                        "args": dict(NILS) if rng.random() < 0.5 else gen_slice(rng, arrays)})
+        r = rng.random()
+        if r < 0.7:
+            k = rng.choice(relevant)
+            ops.append({"op": "setenv", "k": k, "v": rng.choice(CMD_VARS[k])})
+        elif r < 0.9:
+            f = rng.choice(TOOLFILES)
+            st = fs[f]
+            act = rng.choice([a for a, okay in (("remove", st["present"]), ("restore", not st["present"]),
+                                                ("chmod-x", st["present"] and st["exec"]), ("chmod+x", st["present"] and not st["exec"])) if okay])
+            fs_apply(fs, f, act)
+            ops.append({"op": "fs", "act": act, "path": f})
+        else:
+            ops.append({"op": "setenv", "k": rng.choice(VARS), "v": rng.choice(VALUES)})
+    ops.append({"op": "call", "c": 0, "extra": dict(NILS)})
+    return {"kind": "hist", "env": gen_env(rng), "arrays": arrays, "closures": [], "ops": ops}
+
+
 def gen_history(rng):
+    if rng.random() < 0.3:
+        return gen_cmd_history(rng)
     arrays = gen_arrays(rng, scripts=True)
     cls = gen_closures(rng, arrays)
     mk = [{"op": "mk", "kind": c["kind"], "cmd": c["cmd"], "baked": c["baked"]} for c in cls]
     rng.shuffle(mk)
     ops = [mk.pop()]                      # closures are made at any point of the history, under the environment of that moment
     made = 1
+    fs = {f: {"present": True, "exec": True} for f in TOOLFILES}
     for _ in range(rng.choice([1, 2, 3, 3, 4, 4, 5, 6, 8, 10])):
         r = rng.random()
         if mk and r < 0.25:
             ops.append(mk.pop())
             made += 1
-        elif r < 0.12:
+        elif r < 0.09:
             ops.append({"op": "setenv", "k": VERBOSE, "v": rng.choice(VERBOSE_VALUES)})
-        elif r < 0.27:
+        elif r < 0.19:
             ops.append({"op": "setenv", "k": rng.choice(VARS), "v": rng.choice(VALUES)})
+        elif r < 0.30:
+            k = rng.choice(["PATH", "PATH", "TOOLDIR", "TOOLDIR", "TOOL", "WHOLE"])     # which program the command word names changes
+            ops.append({"op": "setenv", "k": k, "v": rng.choice(CMD_VARS[k])})
+        elif r < 0.36:
+            f = rng.choice(TOOLFILES)                # the program is removed / put back / made non-executable / executable again
+            st = fs[f]
+            act = rng.choice([a for a, okay in (("remove", st["present"]), ("restore", not st["present"]),
+                                                ("chmod-x", st["present"] and st["exec"]), ("chmod+x", st["present"] and not st["exec"])) if okay])
+            fs_apply(fs, f, act)
+            ops.append({"op": "fs", "act": act, "path": f})
         elif r < 0.70:
             c = rng.randrange(made)
             if ops and ops[-1]["op"] == "call" and rng.random() < 0.5:
@@ -151,7 +219,7 @@ def gen_par(rng, reps):
         # the calls differ in their arguments, so that the children can be told apart
         arrays.append(["G%d-%s" % (g, rng.choice(WORDS)), rng.choice(WORDS)])
         extras.append({"nil": False, "id": len(arrays) - 1, "off": 0, "len": rng.choice([1, 1, 2]), "cap": 2})
-    cls = [{"kind": rng.choice(["run", "out", "out"]), "cmd": rng.choice(CMDS), "baked": baked}]
+    cls = [{"kind": rng.choice(["run", "out", "out"]), "cmd": rng.choice(CMDS_ABS), "baked": baked}]
     ops = [{"op": "setenv", "k": rng.choice(VARS + [VERBOSE]), "v": rng.choice(VALUES)} for _ in range(rng.choice([0, 0, 1, 2]))]
     par = {"op": "par", "c": 0, "extras": extras, "reps": reps, "bound_ms": PAR_BOUND_MS}
     if rng.random() < 0.25:
@@ -161,54 +229,148 @@ def gen_par(rng, reps):
             arrays[e["id"]] = cells[:nb] + arrays[e["id"]]
             extras[g] = dict(e, len=nb + e["len"], cap=nb + 2)
     ops.append(par)
-    return {"kind": "par", "env": gen_env(rng), "arrays": arrays, "closures": cls, "ops": ops,
+    return {"kind": "par", "env": gen_env(rng, cmdvars=False), "arrays": arrays, "closures": cls, "ops": ops,
             "scheds": [[rng.random() < 0.5 for _ in range(rng.choice([0, 3, 8, 20, 40, 200]))] for _ in range(reps)]}
 
 
 # ------------------------------------------------------------------ running
-def concretize(x, child):
-    """@CHILD@ -> the path of the child built for this run"""
+def fs_apply(fs, f, act):
+    st = fs[f]
+    if act == "remove":
+        st["present"] = False
+    elif act == "restore":
+        st["present"] = True
+    elif act == "chmod-x":
+        st["exec"] = False
+    elif act == "chmod+x":
+        st["exec"] = True
+
+
+def lookpath(name, path, fs, known):
+    """independent exec.LookPath over the abstract file system: a word with a slash names that file, a bare
+    word the first PATH directory holding an executable file of that name"""
+    def ok(p):
+        if p in fs:
+            return fs[p]["present"] and fs[p]["exec"]
+        return p in known
+    if name == "":
+        return None
+    if "/" in name:
+        return name if ok(name) else None
+    for d in (path.split(":") if path else []):
+        p = (d or ".") + "/" + name
+        if ok(p):
+            return p
+    return None
+
+
+def concretize(x, child, dirs):
+    """@CHILD@, @D0@.. -> the paths of this run"""
     s = json.dumps(x).replace("@CHILDDIR@", os.path.dirname(child)).replace("@CHILD@", child)
+    for i, d in enumerate(dirs):
+        s = s.replace("@D%d@" % i, d)
     return json.loads(s)
 
 
-def request(case, child, outfile, gate):
-    env = dict(case["env"], CHILD="@CHILD@", CHILDDIR="@CHILDDIR@")
-    raw = {"outfile": outfile, "gate": gate, "clear": VARS + [UNSET, VERBOSE, "CHILD", "CHILDDIR"], "env": env,
+def prepare(case, child, dirs):
+    """the concrete case of this run: paths filled in, the bookkeeping variables in the environment, every
+    call annotated with the command word the harness has to look up right before it"""
+    c = concretize(case, child, dirs)
+    c["env"] = dict(c["env"], CHILD=child, CHILDDIR=os.path.dirname(child), **{FS_EPOCH: "0"})
+    c["_child"], c["_dirs"], c["_abstract"] = child, dirs, case
+    c["_known"] = {child, dirs[2] + "/other"}
+    env = dict(c["env"])
+    epoch = 0
+    cls = list(c.get("closures") or [])
+    for o in c["ops"]:
+        if o["op"] == "setenv":
+            env[o["k"]] = o["v"]
+        elif o["op"] == "fs":
+            epoch += 1
+            o["epoch"] = str(epoch)
+            env[FS_EPOCH] = o["epoch"]
+        elif o["op"] == "mk":
+            cls.append(o)
+        elif o["op"] == "call":
+            o["probe"] = [py_expand(cls[o["c"]]["cmd"], lambda k: env.get(k, ""))]
+        elif o["op"] == "direct":
+            emap = (o.get("emap") or {}) if o["fn"] in USES_MAP else {}
+            o["probe"] = [py_expand(o["cmd"], lambda k: emap[k] if k in emap else env.get(k, ""))]
+        elif o["op"] == "par":
+            o["probe"] = [py_expand(o["cmd"] if o.get("parfn") else cls[o["c"]]["cmd"], lambda k: env.get(k, ""))]
+    return c
+
+
+def request(case, outfile, gate):
+    raw = {"outfile": outfile, "gate": gate,
+           "clear": VARS + [UNSET, VERBOSE, "CHILD", "CHILDDIR", "PATH", "TOOLDIR", "TOOL", "WHOLE"], "env": case["env"],
            "arrays": case["arrays"], "closures": case["closures"], "ops": case["ops"]}
-    return concretize({"op": "shslice", "raw": raw}, child)
+    return {"op": "shslice", "raw": raw}
+
+
+TOOLS = ((1, "tool"), (2, "tool"), (2, "other"))
+
+
+def setup_tools(child, dirs):
+    """@D1@/tool, @D2@/tool, @D2@/other: executable copies of the child; @D0@ empty.  Written ONCE, before any
+    harness process is started (a program file that is open for writing anywhere cannot be executed)"""
+    for d in dirs:
+        os.makedirs(d, exist_ok=True)
+    for k, name in TOOLS:
+        f = os.path.join(dirs[k], name)
+        if not os.path.exists(f):
+            shutil.copyfile(child, f)
+        os.chmod(f, 0o755)
+
+
+def reset_tools(dirs):
+    """undo the file-system operations of the previous history (renames and modes only, nothing is written)"""
+    for k, name in TOOLS:
+        f = os.path.join(dirs[k], name)
+        if os.path.exists(f + ".gone"):
+            os.replace(f + ".gone", f)
+        os.chmod(f, 0o755)
 
 
 def run_chunks(ctx, binp, child, cases, tag, jobs=None):
-    """runs the cases through `jobs` harness processes; returns (answers, stderr texts)"""
+    """runs the (abstract) cases through `jobs` workers; returns (concrete cases, answers, stderr texts)"""
     jobs = min(jobs or NCPU, max(1, len(cases)))
     chunks = [list(range(i, len(cases), jobs)) for i in range(jobs)]
+    alldirs = [[os.path.join(ctx.tmp, "tools_%s_%d" % (tag, ci), "d%d" % k) for k in range(3)] for ci in range(jobs)]
+    for dirs in alldirs:
+        setup_tools(child, dirs)
     def one(ci):
         # one harness PROCESS per case: a history starts from a fresh package state (pools, loggers),
-        # so a replay file reproduces exactly what was seen
+        # so a replay file reproduces exactly what was seen; one set of tool directories per worker
         idx = chunks[ci]
         outfile = os.path.join(ctx.tmp, "argv_%s_%d.txt" % (tag, ci))
         gate = os.path.join(ctx.tmp, "gate_%s_%d" % (tag, ci))
-        ans, errs = [], []
+        dirs = alldirs[ci]
+        conc, ans, errs = [], [], []
         for i in idx:
+            reset_tools(dirs)
+            c = prepare(cases[i], child, dirs)
             open(outfile, "w").close()
-            inp = json.dumps(request(cases[i], child, outfile, gate)) + "\n"
+            inp = json.dumps(request(c, outfile, gate)) + "\n"
             rc, out, err = sh([binp], input=inp.encode(), timeout=600, env=goenv())
             if rc != 0 and "DATA RACE" not in err:
                 raise BuildError("unitrun (shslice) failed rc=%d: %s" % (rc, err[-2000:]))
             lines = [l for l in out.splitlines() if l.strip()]
             if len(lines) != 1:
                 raise BuildError("unitrun (shslice): %d answers for one request: %s" % (len(lines), err[-2000:]))
+            conc.append(c)
             ans.append(json.loads(lines[0]))
             errs.append(err)
-        return idx, ans, "\n".join(errs)
+        return idx, conc, ans, "\n".join(errs)
     answers = [None] * len(cases)
+    concrete = [None] * len(cases)
     errs = []
-    for idx, ans, err in pmap(one, list(range(len(chunks))), jobs=jobs):
-        for i, a in zip(idx, ans):
+    for idx, conc, ans, err in pmap(one, list(range(len(chunks))), jobs=jobs):
+        for i, c, a in zip(idx, conc, ans):
             answers[i] = a
+            concrete[i] = c
         errs.append(err)
-    return answers, errs
+    return concrete, answers, errs
 
 
 # ------------------------------------------------------------------ oracle
@@ -220,15 +382,23 @@ def is_verbose(env):
     return env.get(VERBOSE, "") in TRUE_SPELLINGS
 
 
-def child_behaviour(argv):
-    """harness/argvchild as a function of its argv: (stdout, exit status)"""
+def child_behaviour(argv, exe):
+    """the operating system and harness/argvchild: (stdout, exit status) of a call that hands over argv when the
+    command word names program exe (None: nothing startable -> nothing printed, sh.ExitStatus of the error is 1)"""
+    if exe is None:
+        return "", 1
     args = argv[1:]
     code = 0
     for a in args:
         m = re.fullmatch(r"--exit=(\d+)", a, flags=re.ASCII)
         if m and int(m.group(1)) <= 255:
             code = int(m.group(1))
-    return ("" if "--quiet" in args else " ".join(args) + "\n"), code
+    return ("" if "--quiet" in args else exe + ": " + " ".join(args) + "\n"), code
+
+
+def which(case, env, fs, argv):
+    """the program the command word names NOW: environment and file system of this moment"""
+    return lookpath(argv[0], env.get("PATH", ""), fs, case["_known"])
 
 
 def trim_nl(t):
@@ -239,39 +409,41 @@ def contents(arrays, s):
     return [] if s.get("nil") else arrays[s["id"]][s["off"]:s["off"] + s["len"]]
 
 
-def expected_call(case, env, o):
-    """the reference of ONE call, from this call's arguments and the environment at this moment alone:
-    (argv the child must receive, text handed back, bytes on os.Stdout, exit status of the error)"""
+def expected_call(case, env, o, fs):
+    """the reference of ONE call, from this call's arguments, the environment and the file system at this moment
+    alone: (argv handed over, text handed back, bytes on os.Stdout, exit status of the error, program run or None)"""
     arrays = case["arrays"]
     emap = (o.get("emap") or {}) if o["fn"] in USES_MAP else {}
     look = lambda k: emap[k] if k in emap else env.get(k, "")
     argv = [py_expand(x, look) for x in [o["cmd"]] + contents(arrays, o["args"])]
-    text, code = child_behaviour(argv)
+    exe = which(case, env, fs, argv)
+    text, code = child_behaviour(argv, exe)
     fn = o["fn"]
     out = trim_nl(text) if fn in ("Output", "OutputWith") else (text if fn == "Exec" else None)
     stdout = text if (fn in ("RunV", "RunWithV") or (fn in ("Run", "RunWith") and is_verbose(env))) else ""
-    return argv, out, stdout, code
+    return argv, out, stdout, code, exe
 
 
-def expected_closure(case, env, c, extra):
+def expected_closure(case, env, c, extra, fs):
     cl = all_closures(case)[c]
     look = lambda k: env.get(k, "")
     argv = [py_expand(x, look) for x in [cl["cmd"]] + contents(case["arrays"], cl["baked"]) + contents(case["arrays"], extra)]
-    text, code = child_behaviour(argv)
+    exe = which(case, env, fs, argv)
+    text, code = child_behaviour(argv, exe)
     if cl["kind"] == "out":
-        return argv, trim_nl(text), "", code          # like sh.Output
-    return argv, None, (text if is_verbose(env) else ""), code   # like sh.Run: os.Stdout if verbose AT THIS CALL
+        return argv, trim_nl(text), "", code, exe          # like sh.Output
+    return argv, None, (text if is_verbose(env) else ""), code, exe   # like sh.Run: os.Stdout if verbose AT THIS CALL
 
 
 def par_extras(o):
     return o.get("extras") or [o["a"], o["b"]]
 
 
-def par_expected(case, env, o):
-    """[(argv, text)] per concurrent call"""
+def par_expected(case, env, o, fs):
+    """[(argv, text, ...)] per concurrent call"""
     if o.get("parfn"):
-        return [expected_call(case, env, {"op": "direct", "fn": o["parfn"], "emap": None, "cmd": o["cmd"], "args": x}) for x in par_extras(o)]
-    return [expected_closure(case, env, o["c"], x) for x in par_extras(o)]
+        return [expected_call(case, env, {"op": "direct", "fn": o["parfn"], "emap": None, "cmd": o["cmd"], "args": x}, fs) for x in par_extras(o)]
+    return [expected_closure(case, env, o["c"], x, fs) for x in par_extras(o)]
 
 
 def par_what(case, o):
@@ -298,13 +470,17 @@ def oracle(case, ans):
         return ["harness error: " + ans["error"]]
     if ans["snap0"] != arrays:
         bad.append("harness: initial arrays differ from the request")
-    env = dict(case["env"], CHILD=case["_child"], CHILDDIR=os.path.dirname(case["_child"]))
+    env = dict(case["env"])
+    fs = {f: {"present": True, "exec": True} for f in (case["_dirs"][1] + "/tool", case["_dirs"][2] + "/tool")}
     for i, (o, ob) in enumerate(zip(case["ops"], ans["obs"])):
         if o["op"] == "setenv":
             env[o["k"]] = o["v"]
+        elif o["op"] == "fs":
+            fs_apply(fs, o["path"], o["act"])
+            env[FS_EPOCH] = o["epoch"]
         elif o["op"] in ("call", "direct"):
             if o["op"] == "call":
-                argv, out, stdout, code = expected_closure(case, env, o["c"], o["extra"])
+                argv, out, stdout, code, exe = expected_closure(case, env, o["c"], o["extra"], fs)
                 cl = all_closures(case)[o["c"]]
                 what = "closure %d (%s, made by operation %d) called with %r" % (
                     o["c"], "OutCmd" if cl["kind"] == "out" else "RunCmd",
@@ -312,14 +488,15 @@ def oracle(case, ans):
                     contents(arrays, o["extra"]))
                 ref = "sh.Output" if cl["kind"] == "out" else "sh.Run"
             else:
-                argv, out, stdout, code = expected_call(case, env, o)
+                argv, out, stdout, code, exe = expected_call(case, env, o, fs)
                 what = "sh.%s(%r, %r...)" % (o["fn"], o["cmd"], contents(arrays, o["args"]))
                 ref = "this call alone"
                 before = o.get("emap")
                 if (ob.get("emap") or {}) != (before or {}) or (before is None) != bool(ob.get("emap_nil")):
                     bad.append("op %d: %s changed the env map: %r -> %r" % (i, what, before, ob.get("emap")))
-            if ob["argv"] != [argv]:
-                bad.append("op %d: %s started %r, expected exactly one child with argv %r (environment at the time of the call)" % (i, what, ob["argv"], argv))
+            if ob["argv"] != ([argv] if exe else []):
+                bad.append("op %d: %s started %r, expected %s (command word %r: environment - PATH=%r - and file system at the time of the call)" % (
+                    i, what, ob["argv"], ("exactly one child, program %s, with argv %r" % (exe, argv)) if exe else "no child: nothing startable is named", argv[0], env.get("PATH")))
             if ob["status"] != code or bool(ob["err"]) != (code != 0):
                 bad.append("op %d: %s returned error %r (exit status %d), the child exits with %d" % (i, what, ob["err"], ob["status"], code))
             if ob["out"] != out:
@@ -329,7 +506,7 @@ def oracle(case, ans):
                 bad.append("op %d: %s wrote %r to os.Stdout, expected %r (%s with the same argv; MAGEFILE_VERBOSE=%r at the time of this call)" % (
                     i, what, ob["stdout"], stdout, ref, env.get(VERBOSE)))
         elif o["op"] == "par":
-            exp = par_expected(case, env, o)
+            exp = par_expected(case, env, o, fs)
             for ri, rp in enumerate(ob.get("reps") or []):
                 if rp.get("stalled"):
                     bad.append("op %d rep %d: %d concurrent calls of %s: only %d of them had their child alive at the same time; after %d ms %d call(s) had neither started a child "
@@ -388,6 +565,8 @@ def t_op(o):
         return "(MkClosure %s %s %s)" % ("KOut" if o["kind"] == "out" else "KRun", coq_str(o["cmd"]), t_slice(o["baked"]))
     if o["op"] == "setenv":
         return "(SetEnv %s %s)" % (coq_str(o["k"]), coq_str(o["v"]))
+    if o["op"] == "fs":
+        return "(SetEnv %s %s)" % (coq_str(FS_EPOCH), coq_str(o["epoch"]))
     if o["op"] == "call":
         return "(CallClosure %d %s)" % (o["c"], t_slice(o["extra"]))
     return "(CallDirect %s %s %s %s)" % (FNSEL[o["fn"]], t_env(o.get("emap") or {}), coq_str(o["cmd"]), t_slice(o["args"]))
@@ -398,7 +577,24 @@ def t_optstr(x):
 
 
 def full_env(case):
-    return dict(case["env"], CHILD=case["_child"], CHILDDIR=os.path.dirname(case["_child"]))
+    return dict(case["env"])
+
+
+def t_lookup(case, ans):
+    """the operating system's answers, keyed by (file-system epoch, PATH, command word) at the time of each call"""
+    env = dict(case["env"])
+    seen, out = set(), []
+    for o, ob in zip(case["ops"], ans["obs"]):
+        if o["op"] == "setenv":
+            env[o["k"]] = o["v"]
+        elif o["op"] == "fs":
+            env[FS_EPOCH] = o["epoch"]
+        for name, res in sorted((ob.get("lookups") or {}).items()):
+            key = (env.get(FS_EPOCH, ""), env.get("PATH", ""), name)
+            if key not in seen:
+                seen.add(key)
+                out.append("(%s, %s, %s, %s)" % (coq_str(key[0]), coq_str(key[1]), coq_str(key[2]), t_optstr(res)))
+    return coq_list(out)
 
 
 def hist_term(case, ans):
@@ -407,8 +603,8 @@ def hist_term(case, ans):
         obs.append("{| i_argv := %s; i_out := %s; i_stdout := %s; i_status := %d; i_snap := %s; i_emap := %s |}" % (
             coq_list([t_strs(a) for a in ob["argv"]]), t_optstr(ob["out"]), coq_str(ob.get("stdout") or ""), ob.get("status") or 0,
             t_heap(ob["snap"]), t_env(ob.get("emap") or {})))
-    return "{| c_env := %s; c_heap := %s; c_cls := %s; c_ops := %s; c_obs := %s |}" % (
-        t_env(full_env(case)), t_heap(case["arrays"]), t_cls(case["closures"]), coq_list([t_op(o) for o in case["ops"]]), coq_list(obs))
+    return "{| c_lookup := %s; c_env := %s; c_heap := %s; c_cls := %s; c_ops := %s; c_obs := %s |}" % (
+        t_lookup(case, ans), t_env(full_env(case)), t_heap(case["arrays"]), t_cls(case["closures"]), coq_list([t_op(o) for o in case["ops"]]), coq_list(obs))
 
 
 def par_terms(case, ans):
@@ -420,7 +616,7 @@ def par_terms(case, ans):
             env[o["k"]] = o["v"]
             continue
         extras = par_extras(o)
-        exp = [e[0] for e in par_expected(case, dict(env), o)]
+        exp = [e[0] for e in par_expected(case, dict(env), o, {})]
         if o.get("parfn"):
             t_call = lambda x: "(CallDirect %s [] %s %s)" % (FNSEL[o["parfn"]], coq_str(o["cmd"]), t_slice(x))
         else:
@@ -444,9 +640,9 @@ def par_terms(case, ans):
                 if g not in mine:
                     mine[g] = rest.pop(0) if rest else []
             for (ga, gb) in pairs:
-                out.append("{| cc_env := %s; cc_heap := %s; cc_cls := %s; cc_a := %s; cc_b := %s; cc_sched := %s; cc_argv_a := %s; cc_argv_b := %s; "
+                out.append("{| cc_lookup := %s; cc_env := %s; cc_heap := %s; cc_cls := %s; cc_a := %s; cc_b := %s; cc_sched := %s; cc_argv_a := %s; cc_argv_b := %s; "
                            "cc_out_a := %s; cc_out_b := %s; cc_snap := %s |}" % (
-                               t_env(env), t_heap(case["arrays"]), t_cls(case["closures"]),
+                               t_lookup(case, ans), t_env(env), t_heap(case["arrays"]), t_cls(case["closures"]),
                                t_call(extras[ga]), t_call(extras[gb]),
                                coq_list([coq_bool(x) for x in case["scheds"][ri % len(case["scheds"])]]),
                                t_strs(mine[ga]), t_strs(mine[gb]), t_optstr(rp["outs"][ga]), t_optstr(rp["outs"][gb]), t_heap(rp["snap"])))
@@ -467,6 +663,10 @@ def run(ctx):
         "Go semantics assumed by Model/Slices.v: append stores in place when capacity allows and allocates otherwise, a variadic call passes the slice itself, "
         "make returns zeroed fresh arrays, os.Expand as Base/Expand.v, exec.Command copies the argument cells when it is called; atomic actions are single-cell loads and stores",
         "the process environment is constant while two concurrent calls overlap (C16_concurrent)",
+        "which program a command word names (exec.LookPath through PATH, the file system of the moment), whether it starts, what it prints and how it exits "
+        "are PARAMETERS of the model: functions of the environment at the time of the call and of the argv (Model/Slices.v child_out/child_exit); their values are fed per case "
+        "from exec.LookPath called by the harness right before each call (keyed by file-system epoch, PATH, command word) and from harness/argvchild's behaviour; "
+        "the oracle uses its own lookup over its own record of the file-system operations",
     ]
     binp = go_build_harness(ctx, "unitrun")
     child = go_build_harness(ctx, "argvchild", tags=None, out=os.path.join(ctx.tmp, "argvchild"))
@@ -478,8 +678,7 @@ def run(ctx):
         npar = 24 if ctx.quick else 300
         reps = 4 if ctx.quick else 10
         cases = [gen_history(rng) for _ in range(nh)] + [gen_par(rng, reps) for _ in range(npar)]
-    cases = [dict(concretize(c, child), _child=child, _abstract=c) for c in cases]
-    answers, _ = run_chunks(ctx, binp, child, cases, "n")
+    cases, answers, _ = run_chunks(ctx, binp, child, cases, "n")
 
     # oracle on everything the implementation did
     nviol = 0
@@ -523,8 +722,8 @@ def run(ctx):
             ctx.notes.append("unitrun could not be built with -race here (%s); race detection skipped" % str(ex)[-200:])
             rbin = None
         if rbin:
-            rcases = [c for c in cases if c["kind"] == "par"] + [c for c in cases if c["kind"] == "hist"][:200]
-            ranswers, errs = run_chunks(ctx, rbin, child, rcases, "r", jobs=8)
+            rcases = [c["_abstract"] for c in cases if c["kind"] == "par"] + [c["_abstract"] for c in cases if c["kind"] == "hist"][:200]
+            rcases, ranswers, errs = run_chunks(ctx, rbin, child, rcases, "r", jobs=8)
             race["cases"] = len(rcases)
             for err in errs:
                 race["reports"] += err.count("WARNING: DATA RACE")
@@ -542,12 +741,13 @@ def run(ctx):
     # coverage
     cov = ctx.coverage
     seen, nontriv = set(), 0
-    kinds = {"setenv": 0, "mk": 0, "call": 0, "direct": 0, "par": 0}
+    kinds = {"setenv": 0, "fs": 0, "mk": 0, "call": 0, "direct": 0, "par": 0}
     byfn, cmdforms = {}, {}
     feat = {"call_without_extra": 0, "call_after_setenv": 0, "repeated_call_of_one_closure": 0, "baked_with_spare_capacity": 0,
             "extra_aliases_baked_array": 0, "offset_slices": 0, "closures_sharing_an_array": 0, "dollar_in_baked": 0, "env_map_overrides": 0,
             "par_repetitions": 0, "failing_calls": 0, "output_family_call_after_failed_call_with_output": 0,
-            "runcmd_called_under_other_verbose_than_made": 0, "calls_in_verbose_mode": 0, "verbose_direct_calls_without_dollar": 0, "concurrent_slow_expansion_cases": 0}
+            "runcmd_called_under_other_verbose_than_made": 0, "calls_not_started": 0,
+            "closure_called_again_with_another_program_named": 0, "closure_started_then_not_or_vice_versa": 0, "calls_in_verbose_mode": 0, "verbose_direct_calls_without_dollar": 0, "concurrent_slow_expansion_cases": 0}
     par_baked, par_goroutines, par_targets = {}, {}, {}
     overlap = {"repetitions": 0, "all_children_alive_together": 0, "max_wait_ms": 0}
     for c, a in zip(cases, answers):
@@ -564,6 +764,7 @@ def run(ctx):
         verbose = c["env"].get(VERBOSE, "")
         allcls = all_closures(c)
         mk_verbose = [None] * len(c.get("closures") or [])     # verbose setting under which each closure was made
+        last_prog = {}                                         # closure -> program its command word named at its previous call
         failed_with_output = False
         for o, ob in zip(c["ops"], (a.get("obs") or [])):
             kinds[o["op"]] += 1
@@ -575,6 +776,13 @@ def run(ctx):
                 if ob.get("status") and ob.get("out"):
                     failed_with_output = True
                 feat["failing_calls"] += bool(ob.get("status"))
+                feat["calls_not_started"] += not ob.get("argv")
+                if o["op"] == "call":
+                    prog = (list((ob.get("lookups") or {}).values()) + [None])[0]
+                    if o["c"] in last_prog and last_prog[o["c"]] != prog:
+                        feat["closure_called_again_with_another_program_named"] += 1
+                        feat["closure_started_then_not_or_vice_versa"] += (prog is None) != (last_prog[o["c"]] is None)
+                    last_prog[o["c"]] = prog
             if o["op"] == "setenv":
                 setenv_seen = True
                 if o["k"] == VERBOSE:
@@ -620,7 +828,8 @@ def run(ctx):
     cov["evaluations"] = len(items) + len(pitems)
     cov["distinct_nontrivial"] = nontriv
     cov["rule"] = ("histories: 1-5 arrays of 0-6 cells ($V, ${V}, mixed and literal words in every cell, spare cells included), 1-3 closures "
-                   "(RunCmd/OutCmd, cmd literal or $CHILD-style, baked slice of random offset/len/cap, often spare capacity, sometimes two closures on one array), "
+                   "(RunCmd/OutCmd; the command word literal, $VAR for the directory / the program name / the whole path, or a bare name resolved through PATH - with "
+                   "PATH, those variables and the programs themselves (removed, restored, chmod) changing between calls; baked slice of random offset/len/cap, often spare capacity, sometimes two closures on one array), "
                    "2-12 operations setenv (V..Y and MAGEFILE_VERBOSE in ParseBool spellings) | mk (closure creation at any point) | closure call (extra nil or any slice, may alias the baked array) | the seven direct functions with env maps; "
                    "40% of the arrays hold no $ reference at all; 9% of the cells script the child (--exit=N: print then fail, --quiet); "
                    "observed per call: argv, text handed back, bytes on os.Stdout (fresh file per call), exit status, all arrays, env map; "
